@@ -180,7 +180,7 @@ void EGLPNUM_TYPENAME_ILLprice_init_pricing_info (
 
 /* norm arrays kept from an earlier solve can only be reused while the problem
  * has the dimensions they were built for */
-static void sync_norm_dimensions (
+void EGLPNUM_TYPENAME_ILLprice_sync_norm_dimensions (
 	EGLPNUM_TYPENAME_lpinfo * const lp,
 	EGLPNUM_TYPENAME_price_info * const pinf)
 {
@@ -222,7 +222,7 @@ int EGLPNUM_TYPENAME_ILLprice_build_pricing_info (
 	int p_price = -1;
 	int d_price = -1;
 
-	sync_norm_dimensions (lp, pinf);
+	EGLPNUM_TYPENAME_ILLprice_sync_norm_dimensions (lp, pinf);
 	switch (phase)
 	{
 	case PRIMAL_PHASEI:
@@ -1494,7 +1494,7 @@ int EGLPNUM_TYPENAME_ILLprice_get_rownorms (
 	int rval = 0;
 	int i;
 
-	sync_norm_dimensions (lp, pinf);
+	EGLPNUM_TYPENAME_ILLprice_sync_norm_dimensions (lp, pinf);
 	if (pinf->dsinfo.norms == NULL)
 	{
 		rval = EGLPNUM_TYPENAME_ILLprice_build_dsteep_norms (lp, &(pinf->dsinfo));
@@ -1518,7 +1518,7 @@ int EGLPNUM_TYPENAME_ILLprice_get_colnorms (
 	int rval = 0;
 	int i, j;
 
-	sync_norm_dimensions (lp, pinf);
+	EGLPNUM_TYPENAME_ILLprice_sync_norm_dimensions (lp, pinf);
 	if (pinf->psinfo.norms == NULL)
 	{
 		rval = EGLPNUM_TYPENAME_ILLprice_build_psteep_norms (lp, &(pinf->psinfo));
@@ -1610,7 +1610,7 @@ int EGLPNUM_TYPENAME_ILLprice_load_rownorms (
 	int i;
 	int rval = 0;
 
-	sync_norm_dimensions (lp, pinf);
+	EGLPNUM_TYPENAME_ILLprice_sync_norm_dimensions (lp, pinf);
 	EGLPNUM_TYPENAME_EGlpNumFreeArray (pinf->dsinfo.norms);
 	pinf->dsinfo.norms = EGLPNUM_TYPENAME_EGlpNumAllocArray (lp->nrows);
 
@@ -1632,7 +1632,7 @@ int EGLPNUM_TYPENAME_ILLprice_load_colnorms (
 	int j;
 	int rval = 0;
 
-	sync_norm_dimensions (lp, pinf);
+	EGLPNUM_TYPENAME_ILLprice_sync_norm_dimensions (lp, pinf);
 	EGLPNUM_TYPENAME_EGlpNumFreeArray (pinf->psinfo.norms);
 	pinf->psinfo.norms = EGLPNUM_TYPENAME_EGlpNumAllocArray (lp->nnbasic);
 
